@@ -7,6 +7,7 @@
   changed formula does.
 -/
 import OpwVerif.Lemmas.SrcTieReal
+import OpwVerif.Lemmas.SrcTie
 import OpwVerif.Lemmas.SrcCtlTie
 namespace Opw.Tie
 open Opw
@@ -20,6 +21,23 @@ theorem forwardTheta_is_source (p : Params ℝ) (q : J6 ℝ) : Src.forwardThetaS
 theorem thetaCandidates_is_source (p : Params ℝ) (pose : Iso ℝ) :
     Src.thetaCandidatesSrc p pose = thetaCandidates p pose :=
   SrcTieReal.thetaCandidates_tie p pose
+
+/-- `inverse_intern_5_dof` is a hand-duplicated copy of the position part of `inverse_intern`: its 8 × 5 table,
+translated from the source, is the first five columns of the 8 × 6 table (generic in the number type) -/
+theorem thetaCandidates5_is_source {R : Type} [OpwNum R] (p : Params R) (pose : Iso R) :
+    Src.thetaCandidates5Src p pose = (thetaCandidates p pose).map (fun t => { t with j6 := 0 }) :=
+  thetaCandidates5Src_eq p pose
+
+/-- … and the model's `inverse_intern_5_dof` is the source's table put through the model's post-processing -/
+theorem inverseIntern5_is_source {R : Type} [OpwNum R] (p : Params R) (pose : Iso R) (j6 : R) :
+    inverseIntern5 p pose j6 =
+      (Src.thetaCandidates5Src p pose).filterMap (fun t => finishCandidate5 p pose j6 (jointsOf p t)) :=
+  inverseIntern5_eq_src p pose j6
+
+/-- `forward_with_joint_poses`: its own copy of the sign/offset map and its chain of six link transforms, translated
+from the source, are the model's `chain` (generic in the number type) -/
+theorem chain_is_source {R : Type} [OpwNum R] (p : Params R) (j : J6 R) :
+    Src.chainThetaSrc p (Src.thetaOfChainSrc p j) = chain p j := chainSrc_eq p j
 
 /-- consequence used by C03: the source's closed form is the reference chain -/
 theorem source_closed_form_eq_reference_chain (p : Params ℝ) (q : J6 ℝ) :
